@@ -2443,3 +2443,48 @@ def block_string_charset(check: Check, repo: Repo, rule: str = "BLOCK-CHARSET") 
             bad.append(f"U+{ord(ch):04X}")
     check.ob(rule, steps[0], f"read_block_string: `{unparse(steps[0].test)[:60]}` over {len(probes)} code points", not bad,
              "accepts every scalar value probed" if not bad else f"rejects {bad[:8]}{' ...' if len(bad) > 8 else ''} inside a block string")
+
+
+def skip_slot_truthy(check: Check, repo: Repo, rule: str = "SKIP-SLOT") -> None:
+    check.rule(
+        rule,
+        "ParallelVisitor keeps one slot per visitor in `skipping` and asks `not skipping[i]` to decide whether the visitor "
+        "is still to be called. While that test is a truthiness test, every value stored into a slot to mean 'skipping' "
+        "must be truthy for every node: the node object itself (no AST class defines __bool__ or __len__), the BREAK "
+        "sentinel, or a literal that is true. A stored number or container (a depth, a path) is falsy for the root "
+        "(depth 0, empty path): the visitor that skipped the root keeps being called for the whole tree",
+    )
+    fn = repo.func("language.visitor", "ParallelVisitor.get_enter_leave_for_kind")
+    truth_tests = []
+    for n in ast.walk(fn):
+        t = None
+        if isinstance(n, ast.UnaryOp) and isinstance(n.op, ast.Not):
+            t = n.operand
+        elif isinstance(n, (ast.If, ast.While, ast.IfExp)):
+            t = n.test
+        if t is None:
+            continue
+        for part in (t.values if isinstance(t, ast.BoolOp) else [t]):
+            if isinstance(part, ast.UnaryOp) and isinstance(part.op, ast.Not):
+                part = part.operand
+            if isinstance(part, ast.Subscript) and unparse(part.value).endswith("skipping"):
+                truth_tests.append(part)
+    stores = [s for s in ast.walk(fn) if isinstance(s, ast.Assign) and any(isinstance(t, ast.Subscript) and unparse(t.value).endswith("skipping") for t in s.targets)]
+    if not stores:
+        raise AnalysisError("ParallelVisitor: stores into the skipping slots not found")
+    # AST node objects are truthy: no __bool__ / __len__ anywhere in language.ast
+    falsy_defs = [f.name for f in ast.walk(repo.mod("language.ast").tree) if isinstance(f, ast.FunctionDef) and f.name in ("__bool__", "__len__")]
+    for s in stores:
+        v = s.value
+        closure = enclosing_function(s)
+        first = closure.args.args[0].arg if closure is not None and closure.args.args else None
+        if isinstance(v, ast.Constant) and v.value is None:
+            continue  # the reset
+        truthy = (isinstance(v, ast.Name) and v.id == first and not falsy_defs) or (isinstance(v, ast.Name) and v.id == "BREAK") \
+            or (isinstance(v, ast.Constant) and bool(v.value))
+        ok = truthy or not truth_tests
+        check.ob(rule, s, f"ParallelVisitor.{closure.name if closure is not None else '?'}: `{unparse(s)}`", ok,
+                 "the stored marker is truthy for every node" if truthy else ("the slots are not tested by truthiness" if ok else
+                 f"`{unparse(v)}` can be falsy (0, empty) while the slot is tested with `not skipping[i]`: a visitor that skips "
+                 "such a node is treated as not skipping"))
+    check.floor(rule, 3, "stores into the per-visitor skipping slots")
